@@ -62,3 +62,18 @@ Proof.
 Qed.
 
 Print Assumptions chain_SE2_exp.
+
+(* SO2 log (atan2 of the imaginary and real parts; no comparison in the program): away from the cut and from real = 0 *)
+Theorem chain_SO2_log eps re im dre dim : (0 < re \/ (re < 0 /\ im <> 0)) ->
+  is_derive (fun h => entry 0 (@run_op RS eps GSO2 OLog [] 0%Z (at_h h [[re; im]] [[dre; dim]])) 0 0) 0
+    (snd (entry (0, 0) (@run_op (DS RS) (eps, 0) GSO2 OLog [] 0%Z (seed [[re; im]] [[dre; dim]])) 0 0)).
+Proof.
+  intros Hc.
+  set (rD := @run_op (DS RS) (eps, 0) GSO2 OLog [] 0%Z (seed [[re; im]] [[dre; dim]])).
+  assert (ED : exists o, rD = Ok [o] /\ length o = 1%nat) by (eexists; split; reflexivity).
+  destruct ED as (o & ED & Lo). rewrite ED. cbn [entry nth]. change o with (nth 0 [o] []) at 1.
+  apply (run_op_chain eps GSO2 OLog [] 0%Z [[re; im]] [[dre; dim]] [o] 0 0);
+    [apply filter_forall; intros h; reflexivity|exact ED|cbn; lia|cbn [nth]; rewrite Lo; lia|].
+  cbn. rewrite !Rmult_0_l, !Rplus_0_r. tauto.
+Qed.
+Print Assumptions chain_SO2_log.
